@@ -350,7 +350,7 @@ META = {
              'in the order close -> read-group header -> sort -> index on every normal path. Does NOT decide that '
              'samtools/pysam sort and index succeed, nor behaviour under process kills (the marker on disk is then '
              '"unfinished" by the dominance clause).'),
-    'technique': 'static analysis: statement CFG with exception edges, dominators, reachability from exception edges, path enumeration of finalisation order; constant-path check of a whole-contig task, interpretation of Fragment.write_pysam',
+    'technique': 'static analysis: statement CFG with exception edges, dominators, reachability from exception edges, path enumeration of finalisation order; constant-path check of a whole-contig task, interpretation of Fragment.write_pysam; exit discipline of finally suites and collection of pool results',
     'design_ref': 'DESIGN.md section 5, C20',
 }
 
